@@ -68,6 +68,10 @@ def configs(shard, tier):
         out.append(dict(family=fam, tdt=tdt, prec=p, S=shape[0], wdims=shape[1], pool_kind=kind, N=n, auto=False, policy='alt', rejections=MENU[fam], max_rej=2, max_consecutive_computes=1))
         if fam in ('anova', 'mia', 'snr'):
             out.append(dict(family=fam, tdt=tdt, prec=p, S=shape[0], wdims=shape[1], pool_kind=kind, N=n, auto=True, policy='alt', rejections=AUTO_MENU, max_rej=2, max_consecutive_computes=1))
+        if fam == 'mia' and tdt in ('uint8', 'float64', 'int16'):
+            # automatic histogram window (no explicit edges): a refused first batch must not leave its window behind
+            out.append(dict(family=fam, tdt=tdt, prec=p, S=shape[0], wdims=shape[1], pool_kind='exact', N=n + 1, auto=False, policy='alt', rejections=('rows', 'rows_less', 'dtype', 'dtype64', 'type_data', 'memory'),
+                            max_rej=2, max_consecutive_computes=1, auto_edges=True))
         if fam == 'cpa' and tier == 'thorough':
             out.append(dict(family=fam, tdt=tdt, prec=p, S=1, wdims=(2, 2), pool_kind=kind, N=n, auto=False, policy='alt', rejections=MENU[fam], max_rej=2, max_consecutive_computes=1))
     return out
